@@ -901,6 +901,9 @@ type QCase struct {
 	Producers [][]Action `json:"producers"` // send actions per producer goroutine
 	QueueSize int        `json:"queue_size"`
 	CutAfter  int        `json:"cut_after"` // -1: no fault; otherwise the peer cuts the first connection between frames after this many frames
+	// IdleMs > 0: one pack is sent and received first, then nothing is sent for this long (the drain loop's wait on the
+	// empty queue, 5 s, expires in between), then the producers start: a quiet agent that becomes busy again
+	IdleMs int `json:"idle_ms,omitempty"`
 }
 
 func runQueue(c QCase) *pbt.Result {
@@ -926,6 +929,19 @@ func runQueue(c QCase) *pbt.Result {
 			p := mkPack(r.nextID, a.Size, a.Seed)
 			jobs[gi] = append(jobs[gi], job{p, r.record(p, a.Override, gi+1), a.Override})
 		}
+	}
+	primer := -1
+	if c.IdleMs > 0 {
+		r.nextID++
+		p := mkPack(r.nextID, 0, 4242)
+		primer = r.record(p, false, 0)
+		if e := cl.SendFlush(p, true); e != nil {
+			return pbt.Fail("queue mode: the first pack was refused by an empty queue: %v", e)
+		}
+		if !r.waitReceived(primer, 0) {
+			return pbt.Fail("queue mode, healthy connection: the first pack was accepted but not received within %v", waitLimit)
+		}
+		time.Sleep(time.Duration(c.IdleMs) * time.Millisecond)
 	}
 	accepted := make([][]bool, len(jobs))
 	var wg sync.WaitGroup
@@ -973,7 +989,7 @@ func runQueue(c QCase) *pbt.Result {
 				fr, _, _ := splitFrames(pc.buf)
 				n += len(fr)
 			}
-			return n >= nAccepted
+			return n >= nAccepted+b2i(primer >= 0)
 		})
 		if !ok {
 			return pbt.Fail("queue mode, healthy connection: %d packs accepted by SendFlush, fewer frames received within %v", nAccepted, waitLimit)
@@ -1027,7 +1043,7 @@ func runQueue(c QCase) *pbt.Result {
 
 var specQueue = pbt.Register(pbt.Spec[QCase]{
 	Prop: "C06", Name: "queue-mode",
-	Rule:  "a fresh client in queue mode with its real drain goroutine; 1-4 producer goroutines enqueue packs (queue size 1..1000, so refusals occur); optionally the peer cuts the connection between frames; oracle (sound for any schedule) = whole frames only, each the reference frame of an accepted pack, none twice, each producer's packs in order, on a healthy connection every accepted pack arrives and no refused pack does; non-trivial = >= 2 producers or a fault; distinct by case",
+	Rule:  "a fresh client in queue mode with its real drain goroutine; 1-4 producer goroutines enqueue packs (queue size 1..1000, so refusals occur); optionally the peer cuts the connection between frames; one fixed history per run sends a pack, stays quiet for 5.4 s (longer than the drain loop's wait on its queue) and then sends five packs at once; oracle (sound for any schedule) = whole frames only, each the reference frame of an accepted pack, none twice, each producer's packs in order, on a healthy connection every accepted pack arrives and no refused pack does; non-trivial = >= 2 producers or a fault; distinct by case",
 	Quick: 40, Thorough: 1500,
 	Draw: func(t *rapid.T) QCase {
 		c := QCase{QueueSize: rapid.SampledFrom([]int{1, 3, 1000, 1000}).Draw(t, "qsize"), CutAfter: rapid.SampledFrom([]int{-1, -1, 0, 1, 3}).Draw(t, "cut")}
@@ -1045,4 +1061,21 @@ var specQueue = pbt.Register(pbt.Spec[QCase]{
 	Run: runQueue,
 })
 
-func TestQueueMode(t *testing.T) { specQueue.Check(t) }
+func b2i(b bool) int {
+	if b {
+		return 1
+	}
+	return 0
+}
+
+func TestQueueMode(t *testing.T) {
+	// a quiet period longer than the drain loop's wait on its queue, then several packs at once (one shard: it takes 5 s)
+	if sh, _ := pbt.Shard(); sh == 0 {
+		burst := []Action{{K: "send", Seed: 1}, {K: "send", Seed: 2, Size: 100}, {K: "send", Seed: 3}, {K: "send", Seed: 4, Size: 3000}, {K: "send", Seed: 5}}
+		specQueue.RunCase(t, QCase{QueueSize: 1000, CutAfter: -1, IdleMs: 5400, Producers: [][]Action{burst}})
+		if pbt.Thorough() {
+			specQueue.RunCase(t, QCase{QueueSize: 1000, CutAfter: -1, IdleMs: 10600, Producers: [][]Action{burst, burst}})
+		}
+	}
+	specQueue.Check(t)
+}
